@@ -245,9 +245,9 @@ Qed.
 
 Lemma window_potential c t1 ops :
   interval c <> 0 -> Forall (op_time_le t1) ops ->
-  forall b, admitted c b ops <= balance b + credit c t1 (deadline b).
+  forall b, granted c b ops <= balance b + credit c t1 (deadline b).
 Proof.
-  intros HI. induction 1 as [|o r Ho _ IH]; intros b; cbn [admitted]; [lia|].
+  intros HI. induction 1 as [|o r Ho _ IH]; intros b; cbn [granted]; [lia|].
   destruct o as [t|].
   - cbn [op_time_le] in Ho. specialize (IH (refresh c b t)).
     pose proof (refresh_potential c b t t1 HI Ho). lia.
@@ -269,7 +269,7 @@ Qed.
    no later than t1 (no ordering assumed). *)
 Theorem bucket_window c b ops t0 t1 :
   0 < interval c -> fresh b t0 -> Forall (op_time_le t1) ops ->
-  admitted c b ops <= balance b + refill c * ((t1 - t0) / interval c + 1).
+  granted c b ops <= balance b + refill c * ((t1 - t0) / interval c + 1).
 Proof.
   intros HI Hf Hops. assert (HI' : interval c <> 0) by lia.
   pose proof (window_potential c t1 ops HI' Hops b).
@@ -300,12 +300,12 @@ Proof.
 Qed.
 
 (* whole histories: any history h1, then a check at t0, then any continuation whose checks
-   are no later than t1 -- the continuation admits at most the balance seen by that check
+   are no later than t1 -- the continuation lets in at most the balance seen by that check
    plus the refills of the window *)
 Theorem bucket_window_history c initial tc h1 t0 ops t1 :
   0 < interval c -> Forall (op_time_le t1) ops ->
   let b0 := run c (new c initial tc) (h1 ++ [Check t0]) in
-  admitted c b0 ops <= balance b0 + refill c * ((t1 - t0) / interval c + 1)
+  granted c b0 ops <= balance b0 + refill c * ((t1 - t0) / interval c + 1)
   /\ balance b0 <= maxb c.
 Proof.
   intros HI Hops b0. split.
@@ -317,7 +317,7 @@ Qed.
 (* no boundary inside the window: a burst is bounded by the balance (hence by max) *)
 Theorem bucket_burst c b ops t1 :
   0 < interval c -> fresh b t1 -> Forall (op_time_le t1) ops ->
-  admitted c b ops <= balance b.
+  granted c b ops <= balance b.
 Proof.
   intros HI Hf Hops. assert (HI' : interval c <> 0) by lia.
   pose proof (window_potential c t1 ops HI' Hops b) as H.
@@ -338,9 +338,9 @@ Proof.
 Qed.
 
 Theorem bucket_zero_interval c b ops :
-  interval c = 0 -> admitted c b ops <= balance b + refill c * count_checks ops.
+  interval c = 0 -> granted c b ops <= balance b + refill c * count_checks ops.
 Proof.
-  intros HI. revert b. induction ops as [|o r IH]; intros b; cbn [admitted count_checks]; [lia|].
+  intros HI. revert b. induction ops as [|o r IH]; intros b; cbn [granted count_checks]; [lia|].
   destruct o as [t|].
   - specialize (IH (refresh c b t)). pose proof (refresh_zero_le c b t HI). lia.
   - specialize (IH (bump b)).
@@ -358,9 +358,9 @@ Proof.
 Qed.
 
 Theorem bucket_no_deadline c b ops :
-  deadline b = None -> admitted c b ops <= balance b.
+  deadline b = None -> granted c b ops <= balance b.
 Proof.
-  revert b. induction ops as [|o r IH]; intros b Hd; cbn [admitted]; [lia|].
+  revert b. induction ops as [|o r IH]; intros b Hd; cbn [granted]; [lia|].
   destruct o as [t|].
   - rewrite refresh_noop_none by exact Hd. apply IH. exact Hd.
   - assert (Hd' : deadline (bump b) = None) by (rewrite bump_deadline; exact Hd).
@@ -377,7 +377,7 @@ Proof.
 Qed.
 
 (* ------------------------------------------------------------------ *)
-(* RateLimitedRouter: handled = admitted, rejected = rate limited       *)
+(* RateLimitedRouter: handled = granted, rejected = rate limited       *)
 
 Fixpoint route_ops (c : cfg) (b : bucket) (rs : list (N * bool)) : list op :=
   match rs with
@@ -388,8 +388,8 @@ Fixpoint route_ops (c : cfg) (b : bucket) (rs : list (N * bool)) : list op :=
     else Check t :: route_ops c b' r
   end.
 
-Lemma route_all_admitted c rs : forall b,
-  count_handled (snd (route_all c b rs)) = admitted c b (route_ops c b rs)
+Lemma route_all_granted c rs : forall b,
+  count_handled (snd (route_all c b rs)) = granted c b (route_ops c b rs)
   /\ fst (route_all c b rs) = run c b (route_ops c b rs).
 Proof.
   induction rs as [|[t h] r IH]; intros b; cbn [route_all route_ops]; [split; reflexivity|].
@@ -398,18 +398,18 @@ Proof.
   - destruct h.
     + destruct (route_all c (bump (refresh c b t)) r) as [b'' xs] eqn:E.
       specialize (IH (bump (refresh c b t))). rewrite E in IH. cbn [fst snd] in *.
-      destruct IH as [IH1 IH2]. cbn [admitted].
+      destruct IH as [IH1 IH2]. cbn [granted].
       destruct (N.ltb_spec 0 (balance (refresh c b t))); [|lia].
       unfold count_handled in *. cbn [filter is_handled length].
       split; [lia|]. unfold run in *. cbn [fold_left step]. exact IH2.
     + destruct (route_all c (refresh c b t) r) as [b'' xs] eqn:E.
       specialize (IH (refresh c b t)). rewrite E in IH. cbn [fst snd] in *.
-      destruct IH as [IH1 IH2]. cbn [admitted].
+      destruct IH as [IH1 IH2]. cbn [granted].
       unfold count_handled in *. cbn [filter is_handled].
       split; [exact IH1|]. unfold run in *. cbn [fold_left step]. exact IH2.
   - destruct (route_all c (refresh c b t) r) as [b'' xs] eqn:E.
     specialize (IH (refresh c b t)). rewrite E in IH. cbn [fst snd] in *.
-    destruct IH as [IH1 IH2]. cbn [admitted].
+    destruct IH as [IH1 IH2]. cbn [granted].
     unfold count_handled in *. cbn [filter is_handled].
     split; [exact IH1|]. unfold run in *. cbn [fold_left step]. exact IH2.
 Qed.
@@ -429,7 +429,7 @@ Theorem router_window c b rs t0 t1 :
   0 < interval c -> fresh b t0 -> Forall (fun r => fst r <= t1) rs ->
   count_handled (snd (route_all c b rs)) <= balance b + refill c * ((t1 - t0) / interval c + 1).
 Proof.
-  intros HI Hf Hrs. destruct (route_all_admitted c rs b) as [-> _].
+  intros HI Hf Hrs. destruct (route_all_granted c rs b) as [-> _].
   apply bucket_window; [exact HI|exact Hf|]. apply route_ops_times. exact Hrs.
 Qed.
 
@@ -458,7 +458,7 @@ Proof.
 Qed.
 
 (* prefix-closed accounting: window_ok over the model's own trace.
-   Invariant: b is the model state, prev = balance b, adm + (what b can still admit) is bounded. *)
+   Invariant: b is the model state, prev = balance b, adm + (what b can still let through) is bounded. *)
 Lemma window_ok_model c b0 t0 ops : forall b now adm nchk,
   now >= t0 ->
   (interval c <> 0 -> adm + balance b + credit c (end_time now ops) (deadline b)
@@ -545,13 +545,13 @@ Proof.
 Qed.
 
 Lemma total_adm_model c ops : forall b now,
-  total_adm (balance b) ops (trace c b now ops) = admitted c b (timed now ops).
+  total_adm (balance b) ops (trace c b now ops) = granted c b (timed now ops).
 Proof.
-  induction ops as [|o r IH]; intros b now; cbn [total_adm trace timed admitted]; [reflexivity|].
+  induction ops as [|o r IH]; intros b now; cbn [total_adm trace timed granted]; [reflexivity|].
   destruct o as [dt| |].
   - cbn [out_bal]. rewrite IH. lia.
-  - unfold check. cbn [out_bal admitted]. rewrite IH. lia.
-  - cbn [out_bal admitted]. rewrite IH. reflexivity.
+  - unfold check. cbn [out_bal granted]. rewrite IH. lia.
+  - cbn [out_bal granted]. rewrite IH. reflexivity.
 Qed.
 
 Theorem oracle_sound c initial t0 ops :
